@@ -1,4 +1,826 @@
 import Bardolph.Model.Gen
+import Bardolph.Model.Sem
+import Bardolph.Model.Grid
+import Bardolph.Proofs.SemSteps
 /-! # C15 — zone and row/column addressing hits exactly the addressed cells (theorems below) -/
 namespace Bardolph
+namespace C15
+open Vm SemSteps
+
+/-! ## 1. the literal `ColorMatrix` and the stage list are the same thing -/
+
+/-- a grid of `h` rows, each of `w` cells -/
+def WF (h w : Nat) (g : Grid) : Prop := g.length = h ∧ ∀ row ∈ g, row.length = w
+
+theorem wf_new (h w : Nat) : WF h w (Grid.new h w) := by
+  refine ⟨by simp [Grid.new], ?_⟩
+  intro row hr
+  simp [Grid.new] at hr
+  simp [hr.2]
+
+theorem get?_new (h w r c : Nat) (hr : r < h) (hc : c < w) :
+    Grid.get? (Grid.new h w) r c = some none := by
+  simp [Grid.get?, Grid.new, hr, hc]
+
+theorem setCell_spec {h w : Nat} {g : Grid} (hg : WF h w g) {r c : Nat} (hr : r < h) (hc : c < w)
+    (v : Option (List Val)) :
+    ∃ g', Grid.setCell g r c v = some g' ∧ WF h w g' ∧
+      ∀ r' c', Grid.get? g' r' c' = if r' = r ∧ c' = c then some v else Grid.get? g r' c' := by
+  obtain ⟨hl, hw⟩ := hg
+  have hrl : r < g.length := by omega
+  have hrow : g[r]? = some g[r] := List.getElem?_eq_getElem hrl
+  have hlen : g[r].length = w := hw _ (List.getElem_mem hrl)
+  refine ⟨g.set r (g[r].set c v), ?_, ⟨by simp [hl], ?_⟩, ?_⟩
+  · simp [Grid.setCell, hrow, hlen, hc]
+  · intro row hmem
+    rcases List.mem_or_eq_of_mem_set hmem with h1 | h1
+    · exact hw _ h1
+    · simp [h1, hlen]
+  · intro r' c'
+    by_cases h1 : r' = r
+    · subst h1
+      by_cases h2 : c' = c
+      · subst h2
+        simp [Grid.get?, hrl, hlen, hc]
+      · have h2' : c ≠ c' := fun e => h2 e.symm
+        simp [Grid.get?, hrl, h2, List.getElem?_set_ne h2']
+    · have h1' : r ≠ r' := fun e => h1 e.symm
+      simp [Grid.get?, h1, List.getElem?_set_ne h1']
+
+theorem overlayRow_spec {h w : Nat} (r : Nat) (hr : r < h) (color : List Val) :
+    ∀ (n left : Nat) (g : Grid), WF h w g → left + n ≤ w →
+    ∃ g', Grid.overlayRow g r left n color = some g' ∧ WF h w g' ∧
+      ∀ r' c', Grid.get? g' r' c' =
+        if r' = r ∧ left ≤ c' ∧ c' < left + n then some (some color) else Grid.get? g r' c' := by
+  intro n
+  induction n with
+  | zero =>
+    intro left g hg _
+    refine ⟨g, by simp [Grid.overlayRow], hg, ?_⟩
+    intro r' c'
+    have : ¬ (r' = r ∧ left ≤ c' ∧ c' < left + 0) := by omega
+    rw [if_neg this]
+  | succ n ih =>
+    intro left g hg hle
+    obtain ⟨g1, h1, hg1, hc1⟩ := setCell_spec hg hr (show left < w by omega) (some color)
+    obtain ⟨g2, h2, hg2, hc2⟩ := ih (left + 1) g1 hg1 (by omega)
+    refine ⟨g2, ?_, hg2, ?_⟩
+    · simp only [Grid.overlayRow, List.range'_succ, List.foldlM_cons, h1]
+      exact h2
+    · intro r' c'
+      rw [hc2, hc1]
+      by_cases ha : r' = r ∧ left + 1 ≤ c' ∧ c' < left + 1 + n
+      · have : r' = r ∧ left ≤ c' ∧ c' < left + (n + 1) := by omega
+        rw [if_pos ha, if_pos this]
+      · by_cases hb : r' = r ∧ c' = left
+        · have : r' = r ∧ left ≤ c' ∧ c' < left + (n + 1) := by omega
+          rw [if_neg ha, if_pos hb, if_pos this]
+        · have : ¬ (r' = r ∧ left ≤ c' ∧ c' < left + (n + 1)) := by omega
+          rw [if_neg ha, if_neg hb, if_neg this]
+
+theorem overlayRows_spec {h w : Nat} (left k : Nat) (color : List Val) :
+    ∀ (n top : Nat) (g : Grid), WF h w g → (n = 0 ∨ k = 0 ∨ (top + n ≤ h ∧ left + k ≤ w)) →
+    ∃ g', Grid.overlayRows g top n left k color = some g' ∧ WF h w g' ∧
+      ∀ r' c', Grid.get? g' r' c' =
+        if (top ≤ r' ∧ r' < top + n) ∧ left ≤ c' ∧ c' < left + k then some (some color)
+        else Grid.get? g r' c' := by
+  intro n
+  induction n with
+  | zero =>
+    intro top g hg _
+    refine ⟨g, by simp [Grid.overlayRows], hg, ?_⟩
+    intro r' c'
+    have : ¬ ((top ≤ r' ∧ r' < top + 0) ∧ left ≤ c' ∧ c' < left + k) := by omega
+    rw [if_neg this]
+  | succ n ih =>
+    intro top g hg hle
+    have hstep : ∃ g1, Grid.overlayRow g top left k color = some g1 ∧ WF h w g1 ∧
+        ∀ r' c', Grid.get? g1 r' c' =
+          if r' = top ∧ left ≤ c' ∧ c' < left + k then some (some color) else Grid.get? g r' c' := by
+      by_cases hk0 : k = 0
+      · subst hk0
+        refine ⟨g, by simp [Grid.overlayRow], hg, ?_⟩
+        intro r' c'
+        have : ¬ (r' = top ∧ left ≤ c' ∧ c' < left + 0) := by omega
+        rw [if_neg this]
+      · exact overlayRow_spec top (by omega) color k left g hg (by omega)
+    obtain ⟨g1, h1, hg1, hc1⟩ := hstep
+    obtain ⟨g2, h2, hg2, hc2⟩ := ih (top + 1) g1 hg1 (by omega)
+    refine ⟨g2, ?_, hg2, ?_⟩
+    · simp only [Grid.overlayRows, List.range'_succ, List.foldlM_cons, h1]
+      exact h2
+    · intro r' c'
+      rw [hc2, hc1]
+      by_cases ha : (top + 1 ≤ r' ∧ r' < top + 1 + n) ∧ left ≤ c' ∧ c' < left + k
+      · have : (top ≤ r' ∧ r' < top + (n + 1)) ∧ left ≤ c' ∧ c' < left + k := by omega
+        rw [if_pos ha, if_pos this]
+      · by_cases hb : r' = top ∧ left ≤ c' ∧ c' < left + k
+        · have : (top ≤ r' ∧ r' < top + (n + 1)) ∧ left ≤ c' ∧ c' < left + k := by omega
+          rw [if_neg ha, if_pos hb, if_pos this]
+        · have : ¬ ((top ≤ r' ∧ r' < top + (n + 1)) ∧ left ≤ c' ∧ c' < left + k) := by omega
+          rw [if_neg ha, if_neg hb, if_neg this]
+
+/-- the rectangle of a stage lies inside an `h × w` matrix, or is empty (nothing is indexed) -/
+def Fits (h w : Nat) (s : Stage) : Prop :=
+  (s.bottom < s.top ∨ s.right < s.left) ∨ (s.bottom < h ∧ s.right < w)
+
+/-- the test `Matrix.cell` applies to a stage -/
+def covers (s : Stage) (r c : Nat) : Bool := s.top ≤ r && r ≤ s.bottom && s.left ≤ c && c ≤ s.right
+
+/-- **overlay_color sets exactly the rectangle, bounds inclusive.** -/
+theorem overlay_spec {h w : Nat} {g : Grid} (hg : WF h w g) (s : Stage) (hf : Fits h w s) :
+    ∃ g', Grid.overlay g s.top s.bottom s.left s.right s.color = some g' ∧ WF h w g' ∧
+      ∀ r c, Grid.get? g' r c = if covers s r c then some (some s.color) else Grid.get? g r c := by
+  have hn : s.bottom + 1 - s.top = 0 ∨ s.right + 1 - s.left = 0 ∨
+      (s.top + (s.bottom + 1 - s.top) ≤ h ∧ s.left + (s.right + 1 - s.left) ≤ w) := by
+    unfold Fits at hf; omega
+  obtain ⟨g', h1, hg', hc⟩ :=
+    overlayRows_spec (h := h) (w := w) s.left (s.right + 1 - s.left) s.color
+      (s.bottom + 1 - s.top) s.top g hg hn
+  refine ⟨g', h1, hg', ?_⟩
+  intro r c
+  rw [hc]
+  by_cases hcov : covers s r c = true
+  · have hcov' := hcov
+    simp only [covers, Bool.and_eq_true, decide_eq_true_eq] at hcov'
+    have : (s.top ≤ r ∧ r < s.top + (s.bottom + 1 - s.top)) ∧ s.left ≤ c ∧
+        c < s.left + (s.right + 1 - s.left) := by omega
+    rw [if_pos this, if_pos hcov]
+  · have hcov' := hcov
+    simp only [covers, Bool.and_eq_true, decide_eq_true_eq] at hcov'
+    have : ¬ ((s.top ≤ r ∧ r < s.top + (s.bottom + 1 - s.top)) ∧ s.left ≤ c ∧
+        c < s.left + (s.right + 1 - s.left)) := by omega
+    rw [if_neg this, if_neg hcov]
+
+theorem setCell_none {h w : Nat} {g : Grid} (hg : WF h w g) {r c : Nat} (hx : h ≤ r ∨ w ≤ c)
+    (v : Option (List Val)) : Grid.setCell g r c v = none := by
+  obtain ⟨hl, hw⟩ := hg
+  by_cases hr : r < g.length
+  · have hlen : g[r].length = w := hw _ (List.getElem_mem hr)
+    have : ¬ c < w := by omega
+    simp [Grid.setCell, List.getElem?_eq_getElem hr, hlen, this]
+  · simp [Grid.setCell, List.getElem?_eq_none (by omega : g.length ≤ r)]
+
+theorem overlayRow_none {h w : Nat} (r : Nat) (color : List Val) :
+    ∀ (n left : Nat) (g : Grid), WF h w g → 0 < n → (h ≤ r ∨ w < left + n) →
+      Grid.overlayRow g r left n color = none := by
+  intro n
+  induction n with
+  | zero => intro _ _ _ h0; omega
+  | succ n ih =>
+    intro left g hg _ hx
+    simp only [Grid.overlayRow, List.range'_succ, List.foldlM_cons]
+    by_cases hin : r < h ∧ left < w
+    · obtain ⟨g1, h1, hg1, _⟩ := setCell_spec hg hin.1 hin.2 (some color)
+      rw [h1]
+      exact ih (left + 1) g1 hg1 (by omega) (by omega)
+    · rw [setCell_none hg (by omega)]
+      rfl
+
+theorem overlayRows_none {h w : Nat} (left k : Nat) (hk : 0 < k) (color : List Val) :
+    ∀ (n top : Nat) (g : Grid), WF h w g → 0 < n → (h < top + n ∨ w < left + k) →
+      Grid.overlayRows g top n left k color = none := by
+  intro n
+  induction n with
+  | zero => intro _ _ _ h0; omega
+  | succ n ih =>
+    intro top g hg _ hx
+    simp only [Grid.overlayRows, List.range'_succ, List.foldlM_cons]
+    by_cases hin : top < h ∧ left + k ≤ w
+    · obtain ⟨g1, h1, hg1, _⟩ := overlayRow_spec top hin.1 color k left g hg hin.2
+      rw [h1]
+      exact ih (top + 1) g1 hg1 (by omega) (by omega)
+    · rw [overlayRow_none top color k left g hg hk (by omega)]
+      rfl
+
+/-- **the model raises exactly where Python does**: `overlay_color` fails (`IndexError`) iff the
+rectangle is non-empty and reaches outside the matrix — the condition on which the VM model
+faults -/
+theorem overlay_none_iff {h w : Nat} {g : Grid} (hg : WF h w g) (s : Stage) :
+    Grid.overlay g s.top s.bottom s.left s.right s.color = none ↔ ¬ Fits h w s := by
+  constructor
+  · intro hnone hf
+    obtain ⟨g', h1, _⟩ := overlay_spec hg s hf
+    rw [h1] at hnone
+    cases hnone
+  · intro hf
+    unfold Fits at hf
+    exact overlayRows_none s.left (s.right + 1 - s.left) (by omega) s.color (s.bottom + 1 - s.top)
+      s.top g hg (by omega) (by omega)
+
+theorem not_fits_iff (h w : Nat) (t b l r : Nat) (col : List Val) :
+    ¬ Fits h w ⟨t, b, l, r, col⟩ ↔
+      (decide (t ≤ b) && decide (l ≤ r) && (decide (b ≥ h) || decide (r ≥ w))) = true := by
+  simp only [Fits, Bool.and_eq_true, Bool.or_eq_true, decide_eq_true_eq]
+  omega
+
+theorem cell_eq (h w : Nat) (stages : List Stage) (r c : Nat) :
+    Matrix.cell ⟨h, w, stages⟩ r c = (stages.reverse.find? fun s => covers s r c).map (·.color) := rfl
+
+theorem overlayAll_spec {h w : Nat} : ∀ (stages : List Stage) (g : Grid), WF h w g →
+    (∀ s ∈ stages, Fits h w s) →
+    ∃ g', Grid.overlayAll g stages = some g' ∧ WF h w g' ∧
+      ∀ r c, Grid.get? g' r c =
+        match stages.reverse.find? fun s => covers s r c with
+        | some s => some (some s.color)
+        | none => Grid.get? g r c := by
+  intro stages
+  induction stages with
+  | nil => intro g hg _; exact ⟨g, by simp [Grid.overlayAll], hg, by simp⟩
+  | cons s rest ih =>
+    intro g hg hf
+    obtain ⟨g1, h1, hg1, hc1⟩ := overlay_spec hg s (hf s (by simp))
+    obtain ⟨g2, h2, hg2, hc2⟩ := ih g1 hg1 (fun x hx => hf x (by simp [hx]))
+    refine ⟨g2, ?_, hg2, ?_⟩
+    · simp only [Grid.overlayAll, List.foldlM_cons, h1]
+      exact h2
+    · intro r c
+      rw [hc2, List.reverse_cons, List.find?_append]
+      cases hfind : rest.reverse.find? fun s => covers s r c with
+      | some x => simp
+      | none =>
+        rw [hc1]
+        by_cases hcov : covers s r c = true <;> simp [hcov]
+
+/-- **C15_grid_is_stages.**  Running the literal `overlay_color` loops for every stage, oldest
+first, on a fresh `h × w` matrix never indexes outside the matrix and leaves in cell `(r, c)`
+the colour of the last stage whose (inclusive) rectangle contains it — `Vm.Matrix.cell` — and
+`None` where no stage reaches. -/
+theorem C15_grid_is_stages (h w : Nat) (stages : List Stage) (hf : ∀ s ∈ stages, Fits h w s) :
+    ∃ g, Grid.overlayAll (Grid.new h w) stages = some g ∧ WF h w g ∧
+      ∀ r c, r < h → c < w → Grid.get? g r c = some (Matrix.cell ⟨h, w, stages⟩ r c) := by
+  obtain ⟨g, h1, hg, hc⟩ := overlayAll_spec stages (Grid.new h w) (wf_new h w) hf
+  refine ⟨g, h1, hg, ?_⟩
+  intro r c hr hcw
+  rw [hc, cell_eq, get?_new h w r c hr hcw]
+  cases stages.reverse.find? fun s => covers s r c <;> rfl
+
+/-- `find_replace(None, default)`: a cell no stage reached now carries the default colour -/
+theorem get?_findReplaceNone (g : Grid) (d : List Val) (r c : Nat) :
+    Grid.get? (Grid.findReplaceNone g d) r c =
+      (Grid.get? g r c).map fun cell => if cell.isNone then some d else cell := by
+  simp only [Grid.get?, Grid.findReplaceNone, List.getElem?_map]
+  cases g[r]? <;> simp
+
+/-- `as_list` is row-major -/
+theorem asList_getElem? {h w : Nat} : ∀ (g : Grid), WF h w g → ∀ r c, c < w →
+    (Grid.asList g)[r * w + c]? = Grid.get? g r c := by
+  induction h with
+  | zero =>
+    intro g hg r c _
+    have : g = [] := List.eq_nil_of_length_eq_zero hg.1
+    subst this
+    simp [Grid.asList, Grid.get?]
+  | succ h ih =>
+    intro g hg r c hc
+    match g, hg with
+    | row :: rest, hg =>
+      have hrow : row.length = w := hg.2 row (by simp)
+      have hrest : WF h w rest := ⟨by have := hg.1; simp at this; omega,
+        fun x hx => hg.2 x (by simp [hx])⟩
+      cases r with
+      | zero =>
+        simp only [Grid.asList, List.flatten_cons, Nat.zero_mul, Nat.zero_add]
+        rw [List.getElem?_append_left (by omega)]
+        simp [Grid.get?]
+      | succ r =>
+        have e : (r + 1) * w + c = row.length + (r * w + c) := by
+          rw [Nat.succ_mul, hrow]; omega
+        simp only [Grid.asList, List.flatten_cons, e]
+        rw [List.getElem?_append_right (by omega), Nat.add_sub_cancel_left]
+        have := ih rest hrest r c hc
+        simpa [Grid.asList, Grid.get?] using this
+
+theorem asList_length {h w : Nat} : ∀ (g : Grid), WF h w g → (Grid.asList g).length = h * w := by
+  induction h with
+  | zero =>
+    intro g hg
+    have : g = [] := List.eq_nil_of_length_eq_zero hg.1
+    subst this
+    simp [Grid.asList]
+  | succ h ih =>
+    intro g hg
+    match g, hg with
+    | row :: rest, hg =>
+      have hrow : row.length = w := hg.2 row (by simp)
+      have hrest : WF h w rest := ⟨by have := hg.1; simp at this; omega,
+        fun x hx => hg.2 x (by simp [hx])⟩
+      have := ih rest hrest
+      simp only [Grid.asList] at this
+      simp only [Grid.asList, List.flatten_cons, List.length_append, this, hrow, Nat.succ_mul]
+      omega
+
+/-- **C15_cell_colour.**  What `_as_raw_matrix` hands to the device wrapper, read literally
+(overlay every stage, replace `None` by the default, flatten): `h * w` cells, cell `(r, c)` at
+index `r * w + c`, carrying the colour of the last stage containing it, else the default. -/
+theorem C15_cell_colour (h w : Nat) (stages : List Stage) (hf : ∀ s ∈ stages, Fits h w s)
+    (d : List Val) :
+    ∃ g, Grid.overlayAll (Grid.new h w) stages = some g ∧
+      (Grid.asList (Grid.findReplaceNone g d)).length = h * w ∧
+      ∀ r c, r < h → c < w →
+        (Grid.asList (Grid.findReplaceNone g d))[r * w + c]? =
+          some (some ((Matrix.cell ⟨h, w, stages⟩ r c).getD d)) := by
+  obtain ⟨g, h1, hg, hc⟩ := C15_grid_is_stages h w stages hf
+  have hg' : WF h w (Grid.findReplaceNone g d) := by
+    refine ⟨by simp [Grid.findReplaceNone, hg.1], ?_⟩
+    intro row hrow
+    simp only [Grid.findReplaceNone, List.mem_map] at hrow
+    obtain ⟨x, hx, rfl⟩ := hrow
+    simp [hg.2 x hx]
+  refine ⟨g, h1, asList_length _ hg', ?_⟩
+  intro r c hr hcw
+  rw [asList_getElem? _ hg' r c hcw, get?_findReplaceNone, hc r c hr hcw]
+  cases Matrix.cell ⟨h, w, stages⟩ r c <;> rfl
+
+/-! ## 2. rectangle normalisation: inclusive ranges, omitted end, omitted clause -/
+
+/-- an omitted `row` (or `column`) clause means the full extent -/
+theorem C15_omitted_clause_is_full_extent (extent : Nat) (h : 0 < extent) :
+    normAxis .none .none extent = some (0, extent - 1) := by
+  have : (extent == 0) = false := by simp; omega
+  simp [normAxis, this]
+
+/-- an omitted end of a range equals its start -/
+theorem C15_omitted_end_is_start (a : Nat) (extent : Nat) :
+    normAxis (.int a) .none extent = some (a, a) := by
+  simp [normAxis, natOf]
+
+/-- both ends given: taken as they are -/
+theorem C15_both_ends (a b : Nat) (extent : Nat) :
+    normAxis (.int a) (.int b) extent = some (a, b) := by
+  simp [normAxis, natOf]
+
+/-- a negative or non-integer bound is rejected (the VM faults), never clipped -/
+theorem C15_negative_rejected (a : Int) (ha : a < 0) (l : Val) (extent : Nat) :
+    normAxis (.int a) l extent = none := by
+  have : ¬ (a ≥ 0) := by omega
+  cases l <;> simp [normAxis, natOf, this]
+
+/-- **C15_rect_inclusive.**  A stage covers `(r, c)` iff `first ≤ r ≤ last` on both axes. -/
+theorem C15_rect_inclusive (t b l r' : Nat) (col : List Val) (r c : Nat) :
+    covers ⟨t, b, l, r', col⟩ r c = true ↔ (t ≤ r ∧ r ≤ b) ∧ (l ≤ c ∧ c ≤ r') := by
+  simp only [covers, Bool.and_eq_true, decide_eq_true_eq]
+  omega
+
+/-- the cell of a matrix after one more stage: the new colour inside the new rectangle, the
+old content outside -/
+theorem cell_append (h w : Nat) (stages : List Stage) (s : Stage) (r c : Nat) :
+    Matrix.cell ⟨h, w, stages ++ [s]⟩ r c =
+      if covers s r c then some s.color else Matrix.cell ⟨h, w, stages⟩ r c := by
+  rw [cell_eq, cell_eq, List.reverse_append]
+  simp only [List.reverse_cons, List.reverse_nil, List.nil_append, List.cons_append,
+    List.find?_cons]
+  cases hcov : covers s r c <;> simp
+
+/-- the `COLOR` instruction with operand `MATRIX` (one `stage`, or the one-line form): the
+registers' rectangle, normalised, is appended as a stage carrying the current colour; a
+non-empty rectangle reaching outside the matrix faults (Python: `IndexError`) -/
+theorem doColor_stage (s : State) (m : Matrix) (t b l r : Nat)
+    (hop : s.regs .operand = .operand .matrix) (hm : s.matrix = some m)
+    (hrows : normAxis (s.regs .firstRow) (s.regs .lastRow) m.height = some (t, b))
+    (hcols : normAxis (s.regs .firstColumn) (s.regs .lastColumn) m.width = some (l, r))
+    (hfit : Fits m.height m.width ⟨t, b, l, r, s.getColor⟩) :
+    s.doColor =
+      { s with matrix := some { m with stages := m.stages ++ [⟨t, b, l, r, s.getColor⟩] } } := by
+  have hcond : (decide (t ≤ b) && decide (l ≤ r) && (decide (b ≥ m.height) || decide (r ≥ m.width)))
+      = false := by
+    unfold Fits at hfit
+    simp only [Bool.and_eq_false_iff, Bool.or_eq_false_iff, decide_eq_false_iff_not]
+    simp only at hfit
+    omega
+  simp only [State.doColor, hop, hm, hrows, hcols, hcond]
+  rfl
+
+/-- … and a non-empty rectangle reaching outside the matrix faults, exactly where the literal
+`overlay_color` raises (`overlay_none_iff`) -/
+theorem doColor_stage_out_of_range (s : State) (m : Matrix) (t b l r : Nat)
+    (hop : s.regs .operand = .operand .matrix) (hm : s.matrix = some m)
+    (hrows : normAxis (s.regs .firstRow) (s.regs .lastRow) m.height = some (t, b))
+    (hcols : normAxis (s.regs .firstColumn) (s.regs .lastColumn) m.width = some (l, r))
+    (hfit : ¬ Fits m.height m.width ⟨t, b, l, r, s.getColor⟩) :
+    s.doColor = s.fault "matrix index out of range" := by
+  have hcond := (not_fits_iff m.height m.width t b l r s.getColor).mp hfit
+  simp only [State.doColor, hop, hm, hrows, hcols, hcond]
+  rfl
+
+/-! ## 3. the one-line form is a block with a single stage -/
+
+/-- **C15_inline_is_single_stage** (code): `set L row … column …` compiles to exactly the
+instructions of `set L begin stage row … column … end`. -/
+theorem C15_inline_is_single_stage (n : NameSpec) (rows cols : Option Range) (cf : Bool) :
+    Gen.genOperand (.matrixInline n rows cols cf) =
+      Gen.genOperand (.matrixBlock n (.cons (.stage rows cols cf) .nil)) := by
+  simp [Gen.genOperand, Gen.genBlock, Gen.genStmt, Gen.ins]
+
+/-- **C15_inline_is_single_stage** (source semantics): the two forms have the same outcome and
+leave the same state — same events, same registers — for every action kind, name form, range
+forms and starting state; the block form only spends two more units of fuel on entering the
+block and the statement. -/
+theorem C15_inline_is_single_stage_sem (f : Nat) (k : ActKind) (n : NameSpec)
+    (rows cols : Option Range) (cf : Bool) (s : Sem.S) :
+    Sem.execOperand (f + 3) k (.matrixBlock n (.cons (.stage rows cols cf) .nil)) s =
+      Sem.execOperand (f + 1) k (.matrixInline n rows cols cf) s := by
+  simp only [Sem.execOperand, Sem.execBlock, Sem.execStmt]
+  cases n <;> dsimp only <;>
+  · split
+    · rfl
+    · generalize hE : Sem.evalMatrixRanges f rows cols cf _ = E
+      have hne := hE ▸ evalMatrixRanges_ne_normal f rows cols cf _
+      cases E with
+      | error o => cases o <;> first | rfl | simp at hne
+      | ok s2 =>
+        dsimp only
+        generalize s2.device State.doColor = D
+        obtain ⟨o, s3⟩ := D
+        cases o <;> rfl
+
+/-! ## 4. the whole matrix goes out exactly once -/
+
+/-- `h * w` values in row-major order -/
+def tile {α : Type} (h w : Nat) (F : Nat → Nat → α) : List α :=
+  (List.range h).flatMap fun r => (List.range w).map fun c => F r c
+
+theorem tile_length {α : Type} (h w : Nat) (F : Nat → Nat → α) : (tile h w F).length = h * w := by
+  induction h with
+  | zero => simp [tile]
+  | succ h ih =>
+    simp only [tile] at ih
+    simp only [tile, List.range_succ, List.flatMap_append, List.length_append, ih,
+      List.flatMap_cons, List.flatMap_nil, List.append_nil, List.length_map, List.length_range,
+      Nat.succ_mul]
+
+theorem tile_getElem? {α : Type} (h w : Nat) (F : Nat → Nat → α) (r c : Nat) (hr : r < h)
+    (hc : c < w) : (tile h w F)[r * w + c]? = some (F r c) := by
+  induction h with
+  | zero => omega
+  | succ h ih =>
+    have hlen := tile_length h w F
+    simp only [tile] at ih hlen
+    simp only [tile, List.range_succ, List.flatMap_append, List.flatMap_cons, List.flatMap_nil,
+      List.append_nil]
+    by_cases hrh : r < h
+    · have : r * w + c < h * w := by
+        have : (r + 1) * w ≤ h * w := Nat.mul_le_mul_right w hrh
+        rw [Nat.succ_mul] at this
+        omega
+      rw [List.getElem?_append_left (by omega)]
+      exact ih hrh
+    · have hrh : r = h := by omega
+      subst hrh
+      rw [List.getElem?_append_right (by omega), hlen, Nat.add_sub_cancel_left]
+      simp [hc]
+
+/-- a list of `h * w` values is determined by its entries at the indices `r * w + c` -/
+theorem tile_ext {α : Type} (h w : Nat) (l₁ l₂ : List α) (h1 : l₁.length = h * w)
+    (h2 : l₂.length = h * w)
+    (hx : ∀ r c, r < h → c < w → l₁[r * w + c]? = l₂[r * w + c]?) : l₁ = l₂ := by
+  apply List.ext_getElem?
+  intro i
+  by_cases hi : i < h * w
+  · have hw : 0 < w := by
+      rcases Nat.eq_zero_or_pos w with h0 | h0
+      · subst h0; simp at hi
+      · exact h0
+    have := hx (i / w) (i % w) ((Nat.div_lt_iff_lt_mul hw).mpr hi) (Nat.mod_lt _ hw)
+    rwa [Nat.div_add_mod'] at this
+  · rw [List.getElem?_eq_none (by omega), List.getElem?_eq_none (by omega)]
+
+/-- what the matrix path transmits for one cell (`_as_raw_matrix`): a staged colour converted
+to raw units and clamped-and-rounded by the wrapper; the saved default (stored raw) or black
+where no stage reached -/
+def cellWire (s : State) (c : Option (List Val)) : Option (List Int) :=
+  match c with
+  | none => wireColor (s.defaultColor.getD [.int 0, .int 0, .int 0, .int 0])
+  | some col => (s.asRawColor col).bind wireColor
+
+theorem mapM_eq_map {α β : Type} (f : α → Option β) (g : α → β) :
+    ∀ l : List α, (∀ x ∈ l, f x = some (g x)) → l.mapM f = some (l.map g) := by
+  intro l
+  induction l with
+  | nil => intro _; rfl
+  | cons a l ih =>
+    intro h
+    rw [List.mapM_cons, h a (by simp), ih (fun x hx => h x (by simp [hx]))]
+    rfl
+
+/-- `COLOR` with operand `MATRIX_LIGHT`: exactly one event, a `setTile` carrying the whole
+matrix, cell `(r, c)` being whatever `cellWire` makes of `m.cell r c` -/
+theorem doColor_matrixLight (s : State) (l : Light) (h w : Nat) (m : Matrix)
+    (F : Nat → Nat → List Int) (d : Int)
+    (hop : s.regs .operand = .operand .matrixLight) (hl : s.light? (s.regs .name) = some l)
+    (hk : l.kind = .matrix h w) (hm : s.matrix = some m)
+    (hcells : ∀ r c, r < h → c < w → cellWire s (m.cell r c) = some (F r c))
+    (hdur : (s.asRawTime (s.regs .duration)).bind wire32 = some d) :
+    s.doColor = s.emit (.setTile l.name (tile h w F) d w h) := by
+  have hmap : (tile h w fun r c => m.cell r c).mapM (cellWire s) = some (tile h w F) := by
+    rw [mapM_eq_map (cellWire s) (fun x => (cellWire s x).getD [])]
+    · congr 1
+      apply tile_ext h w
+      · simp [tile_length]
+      · exact tile_length h w F
+      · intro r c hr hc
+        rw [List.getElem?_map, tile_getElem? h w _ r c hr hc, tile_getElem? h w F r c hr hc]
+        simp [hcells r c hr hc]
+    · intro x hx
+      simp only [tile, List.mem_flatMap, List.mem_range, List.mem_map] at hx
+      obtain ⟨r, hr, c, hc, rfl⟩ := hx
+      simp [hcells r c hr hc]
+  have key : s.doColor =
+      match (tile h w fun r c => m.cell r c).mapM (cellWire s),
+        (s.asRawTime (s.regs .duration)).bind wire32 with
+      | some cs, some d => s.emit (.setTile l.name cs d w h)
+      | _, _ => s.fault "matrix conversion" := by
+    simp only [State.doColor, hop, hl, hk, hm]
+    rfl
+  rw [key, hmap, hdur]
+
+/-- a colour: four numbers (`int`, `float` or `bool`) -/
+def IsColor (c : List Val) : Prop :=
+  ∃ x y z k, c = [x, y, z, k] ∧ (numOf x).isSome ∧ (numOf y).isSome ∧ (numOf z).isSome ∧
+    (numOf k).isSome
+
+theorem wireColor_isColor {c : List Val} (hc : IsColor c) : ∃ wc, wireColor c = some wc := by
+  obtain ⟨x, y, z, k, rfl, hx, hy, hz, hk⟩ := hc
+  obtain ⟨x', hx⟩ := Option.isSome_iff_exists.mp hx
+  obtain ⟨y', hy⟩ := Option.isSome_iff_exists.mp hy
+  obtain ⟨z', hz⟩ := Option.isSome_iff_exists.mp hz
+  obtain ⟨k', hk⟩ := Option.isSome_iff_exists.mp hk
+  exact ⟨_, by simp [wireColor, hx, hy, hz, hk]; rfl⟩
+
+theorem isColor_nums (a b c : Rat) (k : Val) (hk : (numOf k).isSome) :
+    IsColor [.num a, .num b, .num c, k] :=
+  ⟨_, _, _, _, rfl, rfl, rfl, rfl, hk⟩
+
+/-- a colour converts to raw units in every unit mode, and the result is again a colour -/
+theorem asRawColor_isColor (s : State) {c : List Val} (hc : IsColor c) :
+    ∃ raw, s.asRawColor c = some raw ∧ IsColor raw := by
+  obtain ⟨x, y, z, k, rfl, hx, hy, hz, hk⟩ := hc
+  obtain ⟨x', hx'⟩ := Option.isSome_iff_exists.mp hx
+  obtain ⟨y', hy'⟩ := Option.isSome_iff_exists.mp hy
+  obtain ⟨z', hz'⟩ := Option.isSome_iff_exists.mp hz
+  unfold State.asRawColor
+  cases s.mode with
+  | raw => exact ⟨_, rfl, _, _, _, _, rfl, hx, hy, hz, hk⟩
+  | logical =>
+    simp only [convert, logicalToRaw, hx', hy', hz']
+    exact ⟨_, rfl, isColor_nums _ _ _ k hk⟩
+  | rgb =>
+    simp only [convert, rgbToRaw, rgbToHsvList, hx', hy', hz', Option.map_some]
+    exact ⟨_, rfl, _, _, _, _, rfl, rfl, rfl, rfl, hk⟩
+
+theorem black_isColor : IsColor [.int 0, .int 0, .int 0, .int 0] :=
+  ⟨_, _, _, _, rfl, rfl, rfl, rfl, rfl⟩
+
+/-- **C15_matrix_once.**  On a matrix light of any height and width, with the matrix register
+holding any list of stages whose colours (and the saved default, if any) are numbers, the
+final `COLOR` of a `set … begin … end` (or of the one-line form) sends exactly one message: a
+`setTile` with `h * w` cells; cell `(r, c)` is at index `r * w + c` and carries the colour of
+the last stage containing it converted as `cellWire` says, and the default (black if none was
+saved) where no stage reaches. -/
+theorem C15_matrix_once (s : State) (l : Light) (h w : Nat) (m : Matrix) (q : Rat)
+    (hop : s.regs .operand = .operand .matrixLight) (hl : s.light? (s.regs .name) = some l)
+    (hk : l.kind = .matrix h w) (hm : s.matrix = some m)
+    (hstages : ∀ st ∈ m.stages, IsColor st.color)
+    (hdef : ∀ dc, s.defaultColor = some dc → IsColor dc)
+    (hdur : numOf (s.regs .duration) = some q) :
+    ∃ cells d, s.doColor = s.emit (.setTile l.name cells d w h) ∧ cells.length = h * w ∧
+      ∀ r c, r < h → c < w → ∃ wc, cells[r * w + c]? = some wc ∧
+        cellWire s (m.cell r c) = some wc ∧
+        (m.cell r c = none → wireColor (s.defaultColor.getD [.int 0, .int 0, .int 0, .int 0]) = some wc) ∧
+        (∀ col, m.cell r c = some col → (s.asRawColor col).bind wireColor = some wc) := by
+  have hall : ∀ r c, ∃ wc, cellWire s (m.cell r c) = some wc := by
+    intro r c
+    cases hcell : m.cell r c with
+    | none =>
+      cases hd : s.defaultColor with
+      | none => simpa [cellWire, hd] using wireColor_isColor black_isColor
+      | some dc => simpa [cellWire, hd] using wireColor_isColor (hdef dc hd)
+    | some col =>
+      have hmem : ∃ st ∈ m.stages, st.color = col := by
+        simp only [Matrix.cell, Option.map_eq_some_iff] at hcell
+        obtain ⟨st, hfind, hcol⟩ := hcell
+        exact ⟨st, by simpa using List.mem_of_find?_eq_some hfind, hcol⟩
+      obtain ⟨st, hst, rfl⟩ := hmem
+      obtain ⟨raw, hraw, hrc⟩ := asRawColor_isColor s (hstages st hst)
+      obtain ⟨wc, hwc⟩ := wireColor_isColor hrc
+      exact ⟨wc, by simp [cellWire, hraw, hwc]⟩
+  have hd : ∃ d, (s.asRawTime (s.regs .duration)).bind wire32 = some d := by
+    unfold State.asRawTime
+    by_cases hraw : (s.mode == .raw) = true
+    · exact ⟨Conv.param32 q, by simp [hraw, wire32, hdur]⟩
+    · have hne : s.regs .duration ≠ .none := by
+        intro e; rw [e] at hdur; simp [numOf, Val.asNum] at hdur
+      refine ⟨Conv.param32 (q * 1000), ?_⟩
+      simp only [hraw]
+      cases hv : s.regs .duration <;> simp_all [wire32, numOf, Val.asNum]
+  obtain ⟨d, hd⟩ := hd
+  let F : Nat → Nat → List Int := fun r c => (cellWire s (m.cell r c)).getD []
+  have hF : ∀ r c, cellWire s (m.cell r c) = some (F r c) := by
+    intro r c
+    obtain ⟨wc, hwc⟩ := hall r c
+    simp [F, hwc]
+  refine ⟨tile h w F, d, doColor_matrixLight s l h w m F d hop hl hk hm (fun r c _ _ => hF r c) hd,
+    tile_length h w F, ?_⟩
+  intro r c hr hc
+  refine ⟨F r c, tile_getElem? h w F r c hr hc, hF r c, ?_, ?_⟩
+  · intro hnone
+    have := hF r c
+    rwa [hnone] at this
+  · intro col hsome
+    have := hF r c
+    rwa [hsome] at this
+
+/-- a plain `set` of one light: the registers' colour converted to raw units, clamped and
+rounded by the wrapper -/
+theorem colorMultiple_single (s : State) (n : String) (c : List Int) (d : Int)
+    (hrun : s.status = .running)
+    (hc : (s.asRawColor s.getColor).bind wireColor = some c)
+    (hd : (s.asRawTime (s.regs .duration)).bind wire32 = some d) :
+    s.colorMultiple [n] = (s.emit (.setColor n c d)).updLight n fun l => { l with color := c } := by
+  cases hraw : s.asRawColor s.getColor with
+  | none => simp [hraw] at hc
+  | some raw =>
+    cases hdur : s.asRawTime (s.regs .duration) with
+    | none => simp [hdur] at hd
+    | some dur =>
+      have hc' : wireColor raw = some c := by simpa [hraw] using hc
+      have hd' : wire32 dur = some d := by simpa [hdur] using hd
+      simp [State.colorMultiple, hraw, hdur, hrun, State.sendColor, hc', hd']
+
+/-- **C15_cell_conversion_eq_set.**  A cell staged while the colour registers held `s.getColor`
+goes out, from any later state `s'` in the same unit mode, with exactly the wire colour that a
+plain `set` executed in `s` transmits. -/
+theorem C15_cell_conversion_eq_set (s s' : State) (n : String) (c : List Int) (d : Int)
+    (hmode : s'.mode = s.mode) (hrun : s.status = .running)
+    (hcell : cellWire s' (some s.getColor) = some c)
+    (hd : (s.asRawTime (s.regs .duration)).bind wire32 = some d) :
+    s.colorMultiple [n] = (s.emit (.setColor n c d)).updLight n fun l => { l with color := c } := by
+  apply colorMultiple_single s n c d hrun _ hd
+  simpa [cellWire, State.asRawColor, hmode] using hcell
+
+/-! ## 5. a zone range colours exactly the zones `a … b` -/
+
+/-- the device side of a zone command (`set_zone_color(start, end)`, lifxlan's convention and
+the simulated device's): indices `first ≤ i < last` take the colour -/
+def applyZones {α : Type} (zones : List α) (first last : Nat) (c : α) : List α :=
+  zones.mapIdx fun i z => if first ≤ i ∧ i < last then c else z
+
+theorem applyZones_length {α : Type} (zones : List α) (first last : Nat) (c : α) :
+    (applyZones zones first last c).length = zones.length := by
+  simp [applyZones]
+
+theorem applyZones_getElem? {α : Type} (zones : List α) (first last : Nat) (c : α) (i : Nat) :
+    (applyZones zones first last c)[i]? =
+      if first ≤ i ∧ i < last then zones[i]?.map (fun _ => c) else zones[i]? := by
+  simp only [applyZones, List.getElem?_mapIdx]
+  cases zones[i]? <;> by_cases h : first ≤ i ∧ i < last <;> simp [h]
+
+/-- `COLOR` with operand `MZ_LIGHT`: exactly one event, a zone command for `a … b + 1` -/
+theorem doColor_zones (s : State) (l : Light) (k : Nat) (a b : Int) (c : List Int) (d : Int)
+    (hop : s.regs .operand = .operand .mzLight) (hl : s.light? (s.regs .name) = some l)
+    (hk : l.kind = .multizone k) (hfirst : s.regs .firstZone = .int a)
+    (hlast : s.regs .lastZone = .int b ∨ (s.regs .lastZone = .none ∧ b = a))
+    (ha : 0 ≤ a) (hab : a ≤ b) (hb : b ≤ 65534)
+    (hc : (s.asRawColor s.getColor).bind wireColor = some c)
+    (hd : (s.asRawTime (s.regs .duration)).bind wire32 = some d) :
+    s.doColor = s.emit (.setZones l.name a (b + 1) c d) := by
+  cases hraw : s.asRawColor s.getColor with
+  | none => simp [hraw] at hc
+  | some raw =>
+    cases hdur : s.asRawTime (s.regs .duration) with
+    | none => simp [hdur] at hd
+    | some dur =>
+      have hc' : wireColor raw = some c := by simpa [hraw] using hc
+      have hd' : wire32 dur = some d := by simpa [hdur] using hd
+      have hw1 := wire16_int a ha (by omega)
+      have hw2 := wire16_int (b + 1) (by omega) (by omega)
+      rcases hlast with hlast | ⟨hlast, rfl⟩
+      · simp only [State.doColor, hop, hl, hk, hfirst, hlast, hraw, hdur, add_one, hc', hd', hw1, hw2]
+      · simp only [State.doColor, hop, hl, hk, hfirst, hlast, hraw, hdur, add_one, hc', hd', hw1, hw2]
+
+/-- **C15_zone_exact.**  `set L zone a b` (`zone a` alone: `b = a`) on a multizone light sends
+exactly one zone command, and on the device — of any length — afterwards zone `i` carries the
+new colour iff `a ≤ i ≤ b`; every other zone is as it was, and no zone is added or lost. -/
+theorem C15_zone_exact (s : State) (l : Light) (k : Nat) (a b : Nat) (c : List Int) (d : Int)
+    (hop : s.regs .operand = .operand .mzLight) (hl : s.light? (s.regs .name) = some l)
+    (hk : l.kind = .multizone k) (hfirst : s.regs .firstZone = .int a)
+    (hlast : s.regs .lastZone = .int b ∨ (s.regs .lastZone = .none ∧ b = a))
+    (hab : a ≤ b) (hb : b ≤ 65534)
+    (hc : (s.asRawColor s.getColor).bind wireColor = some c)
+    (hd : (s.asRawTime (s.regs .duration)).bind wire32 = some d) :
+    s.doColor = s.emit (.setZones l.name a ((b + 1 : Nat) : Int) c d) ∧
+    ∀ (zones : List (List Int)),
+      (applyZones zones a (b + 1) c).length = zones.length ∧
+      ∀ i, i < zones.length →
+        ((a ≤ i ∧ i ≤ b) → (applyZones zones a (b + 1) c)[i]? = some c) ∧
+        (¬ (a ≤ i ∧ i ≤ b) → (applyZones zones a (b + 1) c)[i]? = zones[i]?) := by
+  refine ⟨?_, ?_⟩
+  · have hlast' : s.regs .lastZone = .int (b : Int) ∨ (s.regs .lastZone = .none ∧ (b : Int) = a) := by
+      rcases hlast with h | ⟨h, e⟩
+      · exact .inl h
+      · exact .inr ⟨h, by omega⟩
+    have := doColor_zones s l k a b c d hop hl hk hfirst hlast' (by omega) (by omega) (by omega) hc hd
+    rw [this]
+    rfl
+  · intro zones
+    refine ⟨applyZones_length _ _ _ _, ?_⟩
+    intro i hi
+    rw [applyZones_getElem?]
+    constructor
+    · intro h
+      have : a ≤ i ∧ i < b + 1 := by omega
+      rw [if_pos this, List.getElem?_eq_getElem hi]
+      rfl
+    · intro h
+      have : ¬ (a ≤ i ∧ i < b + 1) := by omega
+      rw [if_neg this]
+
+/-! ## the hypotheses are satisfiable
+
+A 3 × 2 matrix with two overlapping stages (logical units, one fractional percentage, one
+cell left to the default), and a zone command on a light with 8 zones. -/
+namespace Example
+
+def red : List Val := [.int 0, .int 100, .int 50, .int 3500]
+def blue : List Val := [.num 240, .int 100, .num (51 / 2), .int 3500]
+def stages : List Stage := [⟨0, 1, 0, 1, red⟩, ⟨1, 2, 1, 1, blue⟩]
+
+theorem stages_fit : ∀ s ∈ stages, Fits 3 2 s := by
+  intro s hs
+  simp only [stages, List.mem_cons, List.not_mem_nil, or_false] at hs
+  rcases hs with rfl | rfl <;> simp [Fits]
+
+/-- the literal loops: the later stage wins where the two overlap, `(2, 0)` stays `None` -/
+example : Grid.overlayAll (Grid.new 3 2) stages =
+    some [[some red, some red], [some red, some blue], [none, some blue]] := rfl
+
+example : Grid.asList (Grid.findReplaceNone
+      [[some red, some red], [some red, some blue], [none, some blue]] [.int 1, .int 2, .int 3, .int 4]) =
+    [some red, some red, some red, some blue, some [.int 1, .int 2, .int 3, .int 4], some blue] := rfl
+
+/-- a stage reaching outside the matrix is an `IndexError`, an empty one is not -/
+example : Grid.overlay (Grid.new 3 2) 0 3 0 0 red = none := rfl
+example : Grid.overlay (Grid.new 3 2) 0 0 0 2 red = none := rfl
+example : Grid.overlay (Grid.new 3 2) 2 1 0 7 red = some (Grid.new 3 2) := rfl
+
+example : ∃ g, Grid.overlayAll (Grid.new 3 2) stages = some g ∧ WF 3 2 g ∧
+    ∀ r c, r < 3 → c < 2 → Grid.get? g r c = some (Matrix.cell ⟨3, 2, stages⟩ r c) :=
+  C15_grid_is_stages 3 2 stages stages_fit
+
+def light : Light := { name := "M", group := "g", location := "l", kind := .matrix 3 2 }
+def state : State :=
+  (({ Vm.init [light] with matrix := some ⟨3, 2, stages⟩ }).setReg .name (.str "M")).setReg
+    .operand (.operand .matrixLight)
+
+def wire : Nat → Nat → List Int
+  | 0, _ => [0, 65535, 32768, 3500]
+  | 1, 0 => [0, 65535, 32768, 3500]
+  | 2, 0 => [0, 0, 0, 0]
+  | _, _ => [43690, 65535, 16711, 3500]
+
+/-- one `setTile`, six cells, row-major; 25.5 % is converted (16711), not rounded to 26 % first -/
+example : state.doColor = state.emit (.setTile "M"
+    [[0, 65535, 32768, 3500], [0, 65535, 32768, 3500],
+     [0, 65535, 32768, 3500], [43690, 65535, 16711, 3500],
+     [0, 0, 0, 0], [43690, 65535, 16711, 3500]] 0 2 3) :=
+  doColor_matrixLight state light 3 2 ⟨3, 2, stages⟩ wire 0 rfl rfl rfl rfl
+    (by
+      intro r c hr hc
+      have hr' : r = 0 ∨ r = 1 ∨ r = 2 := by omega
+      have hc' : c = 0 ∨ c = 1 := by omega
+      rcases hr' with rfl | rfl | rfl <;> rcases hc' with rfl | rfl <;> decide +kernel)
+    (by decide +kernel)
+
+example : ∃ cells d, state.doColor = state.emit (.setTile "M" cells d 2 3) ∧
+    cells.length = 3 * 2 := by
+  obtain ⟨cells, d, h1, h2, _⟩ := C15_matrix_once state light 3 2 ⟨3, 2, stages⟩ 0 rfl rfl rfl rfl
+    (by
+      intro st hs
+      simp only [stages, List.mem_cons, List.not_mem_nil, or_false] at hs
+      rcases hs with rfl | rfl <;> exact ⟨_, _, _, _, rfl, rfl, rfl, rfl, rfl⟩)
+    (by intro dc h; cases h) rfl
+  exact ⟨cells, d, h1, h2⟩
+
+def zoneLight : Light := { name := "Z", group := "g", location := "l", kind := .multizone 8 }
+def zoneState : State :=
+  ((((((((Vm.init [zoneLight]).setReg .name (.str "Z")).setReg .operand (.operand .mzLight)).setReg
+    .firstZone (.int 2)).setReg .lastZone (.int 4)).setReg .hue (.int 120)).setReg
+    .saturation (.int 100)).setReg .brightness (.int 50)).setReg .kelvin (.int 3500)
+
+example : zoneState.doColor = zoneState.emit (.setZones "Z" 2 5 [21845, 65535, 32768, 3500] 0) :=
+  (C15_zone_exact zoneState zoneLight 8 2 4 [21845, 65535, 32768, 3500] 0
+    rfl rfl rfl rfl (.inl rfl) (by decide) (by decide) (by decide +kernel) (by decide +kernel)).1
+
+example : applyZones [[0], [1], [2], [3], [4], [5], [6], [7]] 2 5 [9] =
+    [[0], [1], [9], [9], [9], [5], [6], [7]] := by decide
+
+/-- the same wire colour from a plain `set` in the same registers -/
+example : zoneState.colorMultiple ["Z"] =
+    (zoneState.emit (.setColor "Z" [21845, 65535, 32768, 3500] 0)).updLight "Z"
+      fun l => { l with color := [21845, 65535, 32768, 3500] } :=
+  colorMultiple_single zoneState "Z" _ 0 rfl (by decide +kernel) (by decide +kernel)
+
+end Example
+
+end C15
 end Bardolph
